@@ -130,6 +130,7 @@ type scen struct {
 	closer  bool // Close is issued by its own thread as soon as the clients returned
 	stats   bool // a thread calls index.Writer.Stats() (index-level API)
 	reopen  bool
+	prelife []harness.BatchSpec // a first life (no merging) that leaves these batches as separate segment files
 }
 
 func U(id, v string) harness.Op { return harness.Op{Kind: 'U', ID: id, Ver: v} }
@@ -144,7 +145,13 @@ var scens = map[string]scen{
 	"search":  {pre: []B{{I("a", "0"), I("b", "0")}, {U("a", "1")}}, shared: 2},
 	"close":   {opts: harness.Opts{Unsafe: true, EagerMerge: true}, clients: [][]B{{{I("a", "1")}, {I("b", "1")}, {U("a", "2")}}}, closer: true, readers: 1},
 	"close-s": {opts: harness.Opts{EagerMerge: true}, clients: [][]B{{{I("a", "1")}, {I("b", "1")}}, {{I("c", "1")}}}, closer: true, reopen: true},
-	"stats":   {clients: [][]B{{{U("a", "1")}}}, stats: true},
+	// the persister pauses for the merger whenever one file is on disk: Close arrives during that pause
+	"close-pause":   {opts: harness.Opts{EagerMerge: true, NapUnderFiles: 1}, clients: [][]B{{{I("a", "1")}, {I("b", "1")}, {U("a", "2")}}}, closer: true, reopen: true},
+	"close-pause-u": {opts: harness.Opts{Unsafe: true, EagerMerge: true, NapUnderFiles: 1}, clients: [][]B{{{I("a", "1")}, {I("b", "1")}, {U("a", "2")}}}, closer: true},
+	// second life on a directory with two unmerged segments: the merger is busy merging them while the
+	// persister pauses for it; no caller is outstanding, Close comes from its own thread at any moment
+	"reopen-close-pause": {prelife: []B{{I("a", "1")}, {I("b", "1")}}, opts: harness.Opts{Unsafe: true, EagerMerge: true, NapUnderFiles: 1}, closer: true},
+	"stats":              {clients: [][]B{{{U("a", "1")}}}, stats: true},
 }
 
 func run(opts verifmc.Options, param string) (*verifmc.Sched, *explore.Result) {
@@ -161,6 +168,23 @@ func run(opts verifmc.Options, param string) (*verifmc.Sched, *explore.Result) {
 	acked := make([][]int, nthreads+1)
 	var reopened string
 	s := verifmc.Run(opts, func() {
+		if len(sc.prelife) > 0 {
+			w0, err := bluge.OpenWriter(dirConfig(root, harness.Opts{NoFileMerge: true}))
+			if err != nil {
+				errs[0] = "open (first life): " + err.Error()
+				return
+			}
+			for _, b := range sc.prelife {
+				if err := w0.Batch(harness.MakeBatch(b)); err != nil {
+					errs[0] = "first life batch: " + err.Error()
+					return
+				}
+			}
+			if err := w0.Close(); err != nil {
+				errs[0] = "first life close: " + err.Error()
+				return
+			}
+		}
 		w, err := bluge.OpenWriter(dirConfig(root, sc.opts))
 		if err != nil {
 			errs[0] = "open: " + err.Error()
@@ -199,6 +223,24 @@ func run(opts verifmc.Options, param string) (*verifmc.Sched, *explore.Result) {
 			users.Add(1)
 			verifmc.Go(func() {
 				defer others.Done()
+				if !sc.closer {
+					// acquire, pause, use, close — twice: the use of a reader acquired before
+					// a batch overlaps (in happens-before terms) with that batch's introduction
+					defer users.Done()
+					for k := 0; k < 2; k++ {
+						r, err := w.Reader()
+						if err != nil {
+							errs[me] = "reader: " + err.Error()
+							return
+						}
+						verifmc.Yield("before-using-the-reader")
+						if err := readerWork(r, me); err != nil {
+							errs[me] = "reader work: " + err.Error()
+						}
+						_ = r.Close()
+					}
+					return
+				}
 				var rs []*bluge.Reader
 				for k := 0; k < 2; k++ {
 					r, err := w.Reader()
@@ -298,6 +340,10 @@ func run(opts verifmc.Options, param string) (*verifmc.Sched, *explore.Result) {
 		res.FreshConfirm = true
 		return s, res
 	}
+	if s != nil && strings.HasPrefix(s.Failure, "horizon") {
+		res.Failure = "the execution did not terminate within the step horizon (a thread spins, or Close never returns)"
+		return s, res
+	}
 	if s.Failure != "" || res.Failure != "" {
 		return s, res
 	}
@@ -362,14 +408,19 @@ func main() {
 		"memory-model effects below the granularity of synchronisation operations are covered only through the detector's happens-before analysis",
 		"the k-th receive -> (k+cap)-th send edge of buffered channels is emulated per channel (can only lose a report)",
 	}
-	names := []string{"rw", "rw-nap", "search", "close", "close-s", "stats"}
+	names := []string{"rw", "rw-nap", "search", "close", "close-s", "close-pause", "close-pause-u", "reopen-close-pause", "stats"}
 	if os.Getenv("VERIF_ONLY") != "" {
 		names = strings.Split(os.Getenv("VERIF_ONLY"), ",")
 	}
 	bound := c.Pick(1, 2)
-	budget := c.PickD(80*time.Second, 20*time.Minute)
-	for _, n := range names {
-		st := explore.Explore(explore.Config{Scenario: "c15", Param: n, Bound: bound, Budget: budget / time.Duration(len(names))})
+	budget := c.PickD(90*time.Second, 20*time.Minute)
+	deadline := time.Now().Add(budget)
+	for i, n := range names {
+		per := time.Until(deadline) / time.Duration(len(names)-i)
+		if per < 2*time.Second {
+			per = 2 * time.Second
+		}
+		st := explore.Explore(explore.Config{Scenario: "c15", Param: n, Bound: bound, Budget: per})
 		c.AddExplore(st)
 	}
 	c.Finish()
